@@ -114,6 +114,24 @@ Proof.
   - reflexivity.
 Qed.
 
+(* a STATUS response whose mailbox is the quoted string  a BACKSLASH DQUOTE b  (an escaped quote inside quotes), items
+   MESSAGES 3 and UIDNEXT 04: the contents are handed out as sent, escape included *)
+Example ex_status_escaped : exists v, enc_response v
+  (bs "* " ++ (bs "STATUS " ++ ([34] ++ [97; 92; 34; 98] ++ [34]) ++ SPb ++ ([40] ++ (bs "MESSAGES " ++ bs "3") ++ (SPb ++ (bs "UIDNEXT " ++ bs "04") ++ []) ++ [41])) ++ [] ++ [13; 10]) /\
+  v = VCon "Response::MailboxData" [VRec "MailboxDatum::Status"
+        [("mailbox"%string, VBytes [97; 92; 34; 98]);
+         ("status"%string, VList [VCon "StatusAttribute::Messages" [VNum 3]; VCon "StatusAttribute::UidNext" [VNum 4]])]].
+Proof.
+  eexists. split.
+  - apply resp_data, enc_data_intro; [|constructor]. apply data_status.
+    eapply (enc_mailbox_status_intro _ (if eq_nocase [97; 92; 34; 98] (bs "INBOX") then bs "INBOX" else [97; 92; 34; 98])); [kwt | |].
+    + apply (enc_mailbox_intro [97; 92; 34; 98]); [|reflexivity]. apply enc_astring_s, enc_string_q. constructor.
+      apply qb_plain; [reflexivity|]. apply qb_escaped; [right; reflexivity|]. apply qb_plain; [reflexivity | constructor].
+    + eapply sal_some; [apply sa_messages; [kwt | num (bs "3")] |].
+      eapply sam_cons; [apply sa_uidnext; [kwt | num (bs "04")] | constructor].
+  - reflexivity.
+Qed.
+
 (* what the theorem says about such members: parsed from the entry point, with anything behind *)
 Corollary ex_list_parses rest : exists v u, parse ((bs "* " ++ (bs "list " ++ ([40] ++ bs "\marked" ++ (SPb ++ ([92] ++ bs "X") ++ []) ++ [41]) ++ SPb ++ ([34] ++ bs "/" ++ [34]) ++ SPb ++ bs "inbox") ++ [32] ++ [13; 10]) ++ rest) = ROk rest v u.
 Proof. destruct ex_list as (v & H & _). eexists _, _. apply response_roundtrip, H. Qed.
